@@ -58,9 +58,13 @@ def add_class_spec(eng, name, pyclass, fields, inv=None):
         slots.update(getattr(k, "__slots__", ()))
     if slots:
         declared = set(fields)
-        if declared != slots:
-            # reported when the spec is used (target becomes 'unsupported' -> bounded stand-in), never a silent pass
+        if declared - slots:
+            # a declared field the class no longer has: the spec is stale; reported when the spec is used
+            # (target becomes 'unsupported' -> bounded stand-in), never a silent pass
             cs.stale = f"class spec {name} is stale: slots-not-declared={sorted(slots - declared)} declared-not-slots={sorted(declared - slots)}"
+        for extra in sorted(slots - declared):
+            cs.fields[extra] = None          # new slot unknown to the spec: no value; any read of it is 'unsupported'
+            cs.unknown_slots = getattr(cs, "unknown_slots", []) + [extra]
     return cs
 
 
@@ -204,6 +208,8 @@ def int_range(fd):
 
 def is_repeated(fd):
     from google.protobuf.descriptor import FieldDescriptor as FD
+    if hasattr(fd, "is_repeated"):
+        return bool(fd.is_repeated)
     return fd.label == FD.LABEL_REPEATED
 
 
@@ -379,10 +385,27 @@ def construct_dataclass(eng, st, c, args, kwargs):
     ref = VRef(st.alloc(o))
     pi = find_method(eng, c, "__post_init__", st)
     if pi is not None:
-        h = eng.hooks.get("post_init")
-        if h is None:
+        if pi.qualname != "APIModelBase.__post_init__":
             raise Unsupported(f"__post_init__ of {c.__name__}")
-        return h(eng, st, c, ref)
+        # APIModelBase.__post_init__ specialised on the concrete field list: apply each field's converter (exact unrolling)
+        paths = [(st, None)]
+        for f in dataclasses.fields(c):
+            conv = f.metadata.get("converter")
+            if conv is None:
+                continue
+            nxt = []
+            for s, r in paths:
+                if r is not None:
+                    nxt.append((s, r))
+                    continue
+                for s2, v in eng.call(eng.lift(conv, s), [s.heap[ref.oid].f[f.name]], {}, s):
+                    if isinstance(v, Raised):
+                        nxt.append((s2, v))
+                    else:
+                        s2.heap[ref.oid].f[f.name] = v
+                        nxt.append((s2, None))
+            paths = nxt
+        return [(s, ref if r is None else r) for s, r in paths]
     return ok(st, ref)
 
 
